@@ -86,7 +86,37 @@ func NewDomConverter(flags ConverterFlag, builder webdoc.DocumentBuilder, pageUR
 func (dc *DomConverter) Convert(root *html.Node) {
 	clone := dom.Clone(root, true)
 	unwrapLiteralTextInForeignContent(clone)
+	if dc.hasFlag(SkipUnlikelies) {
+		removeUnlikelyCandidates(clone)
+	}
+
 	domutil.WalkNodes(clone, dc.visitNodeHandler, dc.exitNodeHandler)
+}
+
+// removeUnlikelyCandidates takes the unlikely candidates out of the tree before it is walked.
+// Skipping them during the walk is not enough: what is decided for an element from its whole
+// subtree (is it without content, is it a byline, is its table a data table, what is the caption
+// of its figure) would still see them.
+func removeUnlikelyCandidates(root *html.Node) {
+	for _, elem := range dom.GetElementsByTagName(root, "*") {
+		if elem.Parent != nil && isUnlikelyCandidate(elem) {
+			elem.Parent.RemoveChild(elem)
+		}
+	}
+}
+
+// isUnlikelyCandidate checks if the class, id or ARIA role of the element marks it as unlikely content.
+func isUnlikelyCandidate(node *html.Node) bool {
+	nodeData := dom.ClassName(node) + " " + dom.ID(node)
+	tagName := dom.TagName(node)
+	if rxUnlikelyCandidates.MatchString(nodeData) && !rxOkMaybeItsACandidate.MatchString(nodeData) &&
+		!domutil.HasAncestor(node, "table") && tagName != "body" && tagName != "a" {
+		return true
+	}
+
+	role := dom.GetAttribute(node, "role")
+	_, isUnlikely := unlikelyRoles[role]
+	return isUnlikely
 }
 
 // unwrapLiteralTextInForeignContent makes sure that text never comes back as markup when
@@ -161,16 +191,8 @@ func (dc *DomConverter) visitElementNodeHandler(node *html.Node) bool {
 
 	// Skip unlikely candidates
 	tagName := dom.TagName(node)
-	if dc.hasFlag(SkipUnlikelies) {
-		if rxUnlikelyCandidates.MatchString(nodeData) && !rxOkMaybeItsACandidate.MatchString(nodeData) &&
-			!domutil.HasAncestor(node, "table") && tagName != "body" && tagName != "a" {
-			return false
-		}
-
-		role := dom.GetAttribute(node, "role")
-		if _, isUnlikely := unlikelyRoles[role]; isUnlikely {
-			return false
-		}
+	if dc.hasFlag(SkipUnlikelies) && isUnlikelyCandidate(node) {
+		return false
 	}
 
 	// Remove DIV, SECTION, and HEADER nodes without any
